@@ -21,9 +21,28 @@ def scenario_set(pkidir):
             if pop == "sigflip" and role == "C" and carrier == "none": continue
             sc = dict(ver=ver, kx=kx, fam=fam, suites=suites, role=role, cb=cb, cred=cred, pop=pop, carrier=("CERTIFICATE_VERIFY" if role == "S" else carrier))
             S.append(sc)
+    for ver, mode in (("T12", "id"), ("T12", "ticket"), ("T13", "psk"), ("T11", "ticket")):
+        S.append(dict(ver=ver, kx="followup", fam="r", suites="0xc02f", role="C", cb="none", cred="ok", pop="ok", carrier="none", mode=mode))
     return S
 
+TK = "/repo/testkeys"
+def followup_script(sc, k):
+    """a connection under the fault that stores resumption state in an application-owned handle, then - with fault
+    injection off - a second connection using that handle: the library must have stayed consistent"""
+    so = "ver=%s" % sc["ver"]
+    co = "ver=%s sid=R%s%s" % (sc["ver"], " tick=1" if sc["mode"] == "ticket" else "", "" if sc["ver"] == "T13" else " suites=0x2f" if sc["ver"] == "T11" else " suites=0xc02f")
+    L = ["failat %d" % k,
+         "keys ks id=%s/RSA/2048_RSA.pem,%s/RSA/2048_RSA_KEY.pem ca=%s/RSA/2048_RSA_CA.pem tickets=1" % (TK, TK, TK), "keys kc ca=%s/RSA/2048_RSA_CA.pem" % TK,
+         "new s0 server keys=ks %s" % so, "new c0 client keys=kc %s" % co, "link c0 s0", "pump c0 s0 max=60", "send c0 5", "pump c0 s0 max=8", "state c0", "state s0",
+         "close c0", "pump c0 s0 max=6", "del c0", "del s0", "failoff", "sid R",
+         "new s1 server keys=ks %s" % so, "new c1 client keys=kc %s" % co, "link c1 s1", "pump c1 s1 max=60", "send c1 5", "send s1 6", "pump c1 s1 max=8", "state c1", "state s1",
+         "close c1", "pump c1 s1 max=6", "del c1", "del s1"]
+    meta = dict(role="C", cb="none", cred="ok", pop="ok", carrier="CERTIFICATE_VERIFY" if sc["ver"] == "T13" else "none" if sc["ver"] == "T11" else "SERVER_KEY_EXCHANGE", verifier="c0", prover="s0", ver=sc["ver"], kx="followup", eid=0)
+    return L, meta
+
 def script(sc, pkidir, k):
+    if sc.get("kx") == "followup":
+        return followup_script(sc, k)
     L, meta = authgen.episode(sc, pkidir, 0)
     # authgen ends with state lines; add closure and deletion so that everything can be leak-checked
     L = ["failat %d" % k] + L + ["close c0", "pump c0 s0 max=6", "del c0", "del s0", "failoff"]
@@ -43,7 +62,7 @@ def run(tier, seed):
     violations = []
     S = scenario_set(pkidir)
     if tier == "quick":
-        S = [s for i, s in enumerate(S) if (s["cred"], s["pop"]) == ("ok", "ok") or i % 3 == seed % 3]
+        S = [s for i, s in enumerate(S) if (s["cred"], s["pop"]) == ("ok", "ok") or i % 3 == seed % 3 or s["kx"] == "followup"]
     # 1. count allocations per scenario
     count_eps = []
     for i, sc in enumerate(S):
@@ -54,21 +73,34 @@ def run(tier, seed):
         for e in eps: out += e["lines"] + ["reset %s" % e["id"]]
         return out
     runs = runner.run_all(bdir, wd, runner.shard(count_eps, 16), render, timeout=1800, allow_nosession=True, extra=("-l",))
-    nalloc = {}
+    nalloc = {}; sites = {}
     for r in runs:
         if r["rc"] != 0:
             print(r["stderr"][-1500:]); raise SystemExit("INFRA: counting run failed rc=%s" % r["rc"])
+        window = None
         for l in open(r["trace"]):
             d = json.loads(l)
+            if d.get("ev") == "failoff": window = d.get("allocs")         # allocations inside the fault window
             if d.get("ev") == "Reset" and d.get("tag", "").startswith("Q"):
-                nalloc[d["tag"]] = d.get("allocs", 0)
+                nalloc[d["tag"]] = window if window else d.get("allocs", 0)
+                sites[d["tag"]] = d.get("sites", [])
+                window = None
     # 2. the faulted runs
     eps = []
-    per = 90 if tier == "quick" else None
+    per = 240 if tier == "quick" else None
+    nsites_total = [0]; nsites_used = [0]
     for i, sc in enumerate(S):
         n = nalloc.get("Q%d" % i, 0)
         if n <= 0: raise SystemExit("INFRA: no allocations counted for scenario %d" % i)
-        ks = list(range(n)) if per is None else sorted(set(list(range(0, min(n, 12))) + [int(j * n / (per * 0.6)) for j in range(int(per * 0.6))] + [rnd.randrange(n) for _ in range(int(per * 0.3))]))
+        if per is None:
+            ks = list(range(n))
+        else:
+            # quick tier: every allocation call site (innermost return addresses) at least once, rarest sites first -
+            # uniform sampling of indices would spend nearly everything on the big-number library
+            st = sorted(sites.get("Q%d" % i, []), key=lambda x: (x[2], x[0]))
+            nsites_total[0] += len(st); nsites_used[0] += min(len(st), per)
+            ks = set(range(0, min(n, 8))) | set(f for f, l, c in st[:per]) | set(l for f, l, c in st[:per // 3]) | set(rnd.randrange(n) for _ in range(12))
+            ks = sorted(ks)
         ks = [k for k in ks if k < n]
         for k in ks:
             L, m = script(sc, pkidir, k)
@@ -110,7 +142,12 @@ def run(tier, seed):
         meta = {e["id"]: e for e in r["episodes"]}
         r["orig"] = r["trace"]
         r["trace"], summ = check_auth.annotate(r["trace"], {e["id"]: e["meta"] for e in r["episodes"]})
-        crash = {}
+        crash = {}; follow = {}; lastc1 = None
+        for l in open(r["orig"]):
+            d = json.loads(l)
+            if d.get("ev") == "state" and d.get("ep") == "c1": lastc1 = d.get("hc", "none")
+            if d.get("ev") == "state" and d.get("ep") == "s1" and "hc" not in d: lastc1 = "none"      # a key set that failed to load: nothing to follow up
+            if d.get("ev") == "Reset": follow[d.get("tag")] = lastc1; lastc1 = None
         for l in open(r["orig"]):
             d = json.loads(l)
             if d.get("ev") == "Crash":
@@ -121,6 +158,9 @@ def run(tier, seed):
                 stats["fault reached" if d.get("hits") else "fault not reached / crashed"] += 1
                 stats["verifier completed" if s.get("hc") == 1 else "verifier did not complete"] += 1
                 distinct.add((e["sc"]["ver"], e["sc"]["kx"], e["sc"]["role"], e["sc"]["cred"], e["sc"]["pop"], s.get("hc"), bool(d.get("hits"))))
+                if e["sc"].get("kx") == "followup" and d["tag"] not in crash and follow.get(d["tag"]) == 0:
+                    rp = runner.save_replay(prop, "followup_%s" % e["id"], e["lines"] + ["reset %s" % e["id"]])
+                    violations.append(("state", "after allocation %d of %d failed in the first connection, a later fault-free connection with the same handle did not complete, scenario %s" % (e["meta"]["k"], e["meta"]["nalloc"], scd), rp))
                 c = crash.get(d["tag"])
                 if c is not None:
                     kind, site, chain = crash_sig(c.get("sig", ""))
@@ -160,9 +200,9 @@ def run(tier, seed):
     for kind, text, rp in violations[:25]:
         print("VIOLATION property=%s replay=%s" % (prop, rp)); print("  (%s) %s" % (kind, text[:900]))
     cov = {"evaluations": len(eps), "distinct_nontrivial": len(distinct),
-           "rule": "evaluation = one run of a scenario (version x key exchange x verifier role x credential / proof class from the C04 generator, incl. key loading, handshake, data, closure, deletion) with the k-th library allocation failing; k ranges over every allocation of the scenario (thorough) or the first 12, an even spread and a random sample (quick); distinct_nontrivial = distinct (version, kx, role, credential class, proof class, verifier completed?, fault reached?)",
+           "rule": "evaluation = one run of a scenario (version x key exchange x verifier role x credential / proof class from the C04 generator, incl. key loading, handshake, data, closure, deletion) with the k-th library allocation failing; k ranges over every allocation of the scenario (thorough) or every distinct allocation call site - rarest first, up to 240 per scenario - plus the first 8 and a random sample (quick); distinct_nontrivial = distinct (version, kx, role, credential class, proof class, verifier completed?, fault reached?)",
            "samples": [dict(scenario={k: e["sc"][k] for k in ("ver", "kx", "fam", "role", "cb", "cred", "pop")}, k=e["meta"]["k"], allocations=e["meta"]["nalloc"]) for e in eps[:2] + eps[-2:]],
-           "scenarios": len(S), "allocations_per_scenario": {"min": min(nalloc.values()), "max": max(nalloc.values())}, "outcomes": dict(stats),
+           "scenarios": len(S), "allocation_sites": {"seen": nsites_total[0], "failed_at_least_once": nsites_used[0]} if tier == "quick" else "all", "allocations_per_scenario": {"min": min(nalloc.values()), "max": max(nalloc.values())}, "outcomes": dict(stats),
            "traces_validated_against_impl": nvalid, "known_findings_reported": sorted(known_hit), "trace_states_checked": tstates, "exhaustive": tier == "thorough"}
     runner.write_evidence(prop, tier, seed, "fault_enumeration", cov, time.time() - t0, len(violations), ASSUME)
     return 1 if violations else 0
